@@ -285,8 +285,10 @@ class Collection(AbstractPriorModel):
 
             if isinstance(value, AbstractPriorModel):
                 collection[key] = value.gaussian_prior_model_for_arguments(arguments)
-            if isinstance(value, Prior):
+            elif isinstance(value, Prior):
                 collection[key] = arguments[value]
+            else:
+                collection[key] = value
 
         return collection
 
